@@ -121,13 +121,13 @@ type RunResult struct {
 	Error  string       `json:"error,omitempty"`
 }
 
-var defaultPkgs = []string{".", "./region", "./hrpc", "./compression", "./compression/snappy", "./pb", "modernc.org/b/v2",
+var defaultPkgs = []string{".", "./region", "./hrpc", "./filter", "./compression", "./compression/snappy", "./pb", "modernc.org/b/v2",
 	"net", "io", "time", "math/bits", "bytes", "encoding/binary", "slices", "errors", "strings", "bufio", "unicode/utf8",
 	"strconv", "sort", "context",
 	"google.golang.org/protobuf/encoding/protowire", "google.golang.org/protobuf/proto"}
 
 var initAllow = []string{"github.com/tsuna/gohbase", "github.com/tsuna/gohbase/region", "github.com/tsuna/gohbase/hrpc",
-	"github.com/tsuna/gohbase/compression", "github.com/tsuna/gohbase/compression/snappy", "io", "bufio", "strconv",
+	"github.com/tsuna/gohbase/compression", "github.com/tsuna/gohbase/compression/snappy", "github.com/tsuna/gohbase/filter", "io", "bufio", "strconv",
 	"google.golang.org/protobuf/encoding/protowire"}
 
 func fatal(out string, msg string) {
